@@ -11,7 +11,8 @@ def skippable (so : SOpts) (f : FieldInfo) (t : Ty) : Bool :=
 
 /-- `required` of a property in the serialization schema: a TypedDict key keeps its declared requiredness -/
 def reqS (so : SOpts) (td : Bool) (f : FieldInfo) (t : Ty) : Bool :=
-  if td then f.required else !skippable so f t
+  -- (repair of row 42: a TypedDict key that can be skipped is not required either)
+  (f.required || !td) && !skippable so f t
 
 -- `SerializationSchemaBuilder.visit`: as `buildD`, with `required = not skippable`
 mutual
@@ -19,10 +20,10 @@ def buildS (so : SOpts) (ap : Bool) : Ty → Sch
   | .null => .ofType .null | .bool => .ofType .boolean | .int => .ofType .integer
   | .float => .ofType .number | .str => .ofType .string
   | .any => .empty
-  | .list t => .mk [.array] none [] {} (some (.inr (buildS so ap t))) none [] [] none [] [] none
-  | .vtuple t => .mk [.array] none [] {} (some (.inr (buildS so ap t))) none [] [] none [] [] none
-  | .set t => .mk [.array] none [] { unique := true } (some (.inr (buildS so ap t))) none [] [] none [] [] none
-  | .frozenset t => .mk [.array] none [] { unique := true } (some (.inr (buildS so ap t))) none [] [] none [] [] none
+  | .list t => .mk [.array] none [] {} (subKw (buildS so ap t)) none [] [] none [] [] none
+  | .vtuple t => .mk [.array] none [] {} (subKw (buildS so ap t)) none [] [] none [] [] none
+  | .set t => .mk [.array] none [] { unique := true } (subKw (buildS so ap t)) none [] [] none [] [] none
+  | .frozenset t => .mk [.array] none [] { unique := true } (subKw (buildS so ap t)) none [] [] none [] [] none
   | .tuple ts => .mk [.array] none [] { minItems := some ts.length, maxItems := some ts.length }
       (some (.inl false)) (some (buildSL so ap ts)) [] [] none [] [] none
   | .mapping k v => mappingSchema (buildS so ap k) (buildS so ap v)
@@ -32,7 +33,7 @@ def buildS (so : SOpts) (ap : Bool) : Ty → Sch
   | .newtype _ t => buildS so ap t
   | .ann c t => mergeInto c (buildS so ap t)
   | .obj ci fs => .mk [.object] none [] {} none none (buildSF so ap (ci.kind == .typedDict) fs)
-      (requiredS so (ci.kind == .typedDict) fs) (some (.inl ap)) [] [] none
+      (requiredS so (ci.kind == .typedDict) fs) (apKw ap) [] [] none
 termination_by structural t => t
 def buildSL (so : SOpts) (ap : Bool) : List Ty → List Sch
   | [] => []
@@ -266,7 +267,7 @@ theorem serialized_validates (so : SOpts) (ap : Bool) :
       | crash c => rw [hm] at hs; cases hs
       | ok js =>
         rw [hm] at hs; simp only [bindO] at hs; cases hs
-        rw [buildS, validates_array]
+        rw [buildS, validates_array']
         simp only [consOk_empty, Bool.true_and]
         exact all_of_all2 ih (mapMO_all2 vs js hm) hv
   · -- vtuple
@@ -281,7 +282,7 @@ theorem serialized_validates (so : SOpts) (ap : Bool) :
       | crash c => rw [hm] at hs; cases hs
       | ok js =>
         rw [hm] at hs; simp only [bindO] at hs; cases hs
-        rw [buildS, validates_array]
+        rw [buildS, validates_array']
         simp only [consOk_empty, Bool.true_and]
         exact all_of_all2 ih (mapMO_all2 vs js hm) hv
   · intro t _ v j hv; simp [HasTy] at hv
@@ -329,7 +330,7 @@ theorem serialized_validates (so : SOpts) (ap : Bool) :
       rw [hm] at hs; simp only [bindO] at hs; cases hs
       obtain ⟨hA, hB⟩ := serFields_props fs js ih hf hm
       have hn := nodup_of_distinctStrs hdist
-      rw [buildS, validates_object, hkind]
+      rw [buildS, validates_object', hkind]
       simp only [consOk_empty, Bool.true_and, vProps_buildSF hn hA fs (fun p hp => hp), required_present fs hB,
         propNames_buildSF, Bool.and_true]
       cases ap
